@@ -53,6 +53,19 @@ STRENGTHENED = {
     "C19-mut_C19-r2m2": "missed at first (lru_cache on the loader); in-process histories Run/Rerun/ClearCache/Mutate, RightResults",
     "C20-mut_C20-r2m1": "missed at first (parameter labels sorted in the minimiser); fits with non-alphabetical p0, first Eval = p0",
     "C20-mut_C20-r2m2": "missed at first (loss arguments swapped in the unscaled branch); Law3 fixes the orientation of asymmetric losses",
+    "C16-mut_C16-r2m1": "missed at first (label influx reactions skipped when built with EXT = 0, EXT updated later); EXT is now a "
+                        "parameter of the built model: build / update_parameter histories",
+    # ---- round 3 (C01, C02, C03, C13, C07, C11, C12; authors knew rounds 1 and 2) ---------------------------------
+    "C01-mut_C01-r3m2": "missed at first (time-course forms read the state table by column position); frames with permuted columns",
+    "C02-mut_C02-r3m2": "missed at first (a surrogate also 'provided' its own name); the provider's own name is now a requirable, "
+                        "never-provided name in DepSort",
+    "C03-mut_C03-r3m2": "missed at first (update_data keeping the cache; shows only through an initial assignment reading the data "
+                        "set); seed content `dataia`",
+    "C07-mut_C07-r3m1": "missed at first (untranslatable computed coefficient silently skipped); StMenu offers such a coefficient",
+    "C11-mut_C11-r3m1": "missed at first (module-level constant shadowing a parameter); fnlib has module floats named like formals",
+    "C11-mut_C11-r3m2": "missed at first (tuple assignment bound one name at a time); FnLib `swp`",
+    "C12-mut_C12-r3m1": "missed at first (identical contributions collapsed in a set); ModelEval `Twin` reactions",
+    "C12-mut_C12-r3m2": "missed at first (Jacobian lambdified over the key order of a supplied y0); closure built with y0 reversed",
 }
 rows = []
 for d in sorted(p for p in root.iterdir() if p.is_dir()):
